@@ -321,6 +321,7 @@ def run_batch(spec):
             continue
         finally:
             signal.alarm(0)
+        common.release_tealer_caches()
         out["cases"] += 1
         out["nontrivial"].extend(nontrivial)
         if len(out["samples"]) < 1 and len(src) < 500:
